@@ -9,7 +9,7 @@ from __future__ import annotations
 import random
 
 from hv import core
-from hv.engine_harness import Harness, make_stateless, program_lines
+from hv.engine_harness import Harness, delay_ns, make_stateless, program_lines
 
 TICK = 9
 SCALES = {
@@ -170,6 +170,32 @@ def crash_window(rng, prog, sc, nk):
     prog["window"] = True
 
 
+def shift_start(rng, prog):
+    """run the same program from a start_time other than the epoch: every absolute timestamp of the program moves by
+    `start` (1 ns, an off-grid value, whole seconds, …); the horizon is given as end_time= or as duration= (relative
+    to start_time, in float seconds, incl. values that do not convert exactly)"""
+    small = max(prog["times"]) < 10**6
+    start = rng.choice([1, 1, 7, 999, 1000, 123457] if small else [1, 10**9, 3 * 10**9, 2 * 10**9 + 1, 10**9 + 123456789])
+    prog["start"] = start
+    for p in prog["pre"]:
+        p["time"] += start
+    for hd in prog.get("held", []):
+        hd["time"] += start
+    for d in prog["defs"]:
+        for seg in d["segs"]:
+            for a in seg["acts"]:
+                if a[0] == "EA":
+                    a[3] += start
+    prog["times"] = [t + start for t in prog["times"]]
+    if prog["end"] is not None:
+        if rng.random() < 0.6:
+            dur = rng.choice([1e-6, 2e-6, 5e-6, 1.1e-6, 2.0001e-5, 1e-9] if small else [1.0, 2.0, 0.5, 6.0, 0.29, 2.000000001, 10.0])
+            prog["dur"] = dur
+            prog["end"] = start + delay_ns(dur)
+        else:
+            prog["end"] += start
+
+
 class C01(core.Property):
     id = "C01"
     driver = "drv-c01"
@@ -224,7 +250,8 @@ class C01(core.Property):
             "its target is down in the stretch of the trace in which it falls due); end_time none / on a tie value / between events; fast loop or "
             "instrumented loop (control attached); a tenth of the programs (stateless ones) are run, reset() and run again, the second "
             "run being the one compared and judged; relay chains whose hop counter lives in the event metadata (handlers stamp the "
-            "delivered event and forward a copy); a run that makes more than 1500 deliveries is cut and judged as it stands. Non-trivial = at least two deliveries share a timestamp or an event is "
+            "delivered event and forward a copy); 30% of the programs run from a start_time other than the epoch (1 ns, off-grid, "
+            "seconds) with the horizon given as end_time= or as duration= (float seconds relative to start_time); a run that makes more than 1500 deliveries is cut and judged as it stands. Non-trivial = at least two deliveries share a timestamp or an event is "
             "cancelled/stale/gated; distinct = distinct (program, log)")
     trusted_base = [
         "hv/engine_harness.py scripted entities and trace recorder; tags = harness creation counter",
@@ -243,14 +270,18 @@ class C01(core.Property):
 
     def generate(self, rng, i, tier):
         prog = gen_program(rng, futures=self.futures)
+        started = rng.random() < 0.3
+        if started:
+            shift_start(rng, prog)
         if type(self) is C01 and not prog.get("window") and rng.random() < 0.1:
             # the run is repeated after control.reset(): the second run starts from clock 0 with the replayed
             # pre-run schedule and must be the same run again (entities without state)
             make_stateless(prog)
             prog["rerun"] = True
-            prog["family"] = "rerun/" + ("auto" if prog["end"] is None else "end") + "/" + prog["loop"]
+            prog["family"] = "rerun/" + ("auto" if prog["end"] is None else "end") + "/" + prog["loop"] + ("/start" if started else "")
             return prog
-        prog["family"] = ("crashwin/" if prog.get("window") else "program/") + ("auto" if prog["end"] is None else "end") + "/" + prog["loop"]
+        prog["family"] = (("crashwin/" if prog.get("window") else "program/") + ("auto" if prog["end"] is None else "dur" if prog.get("dur") is not None else "end")
+                          + "/" + prog["loop"] + ("/start" if started else ""))
         return prog
 
     def run_impl(self, case):
@@ -312,6 +343,7 @@ class C01(core.Property):
             p["time"] = rng.choice(case.get("times", [0, 1000]))
         if rng.random() < 0.3:
             c["end"] = rng.choice([None] + case.get("times", [0, 1000]))
+            c.pop("dur", None)     # (the horizon is given as end_time= then)
         c["loop"] = rng.choice(["fast", "slow"])
         return c
 
